@@ -1706,8 +1706,8 @@ func (r *Raft) sendInstallSnapshot(id, address string) {
 
 	// Read a chunk of the snapshot from the file.
 	var buf bytes.Buffer
-	n, err := io.Copy(&buf, follower.snapshot)
-	if err != nil {
+	n, err := io.CopyN(&buf, follower.snapshot, snapshotChunkSize)
+	if err != nil && err != io.EOF {
 		if err := follower.snapshot.Close(); err != nil {
 			r.logger.Errorf("failed to close snapshot file: error = %v", err)
 		}
